@@ -24,9 +24,9 @@ LEAN_MODULE = "Signac.Properties.C17"
 DRIVER = "drv_view"
 DESIGN_REF = "DESIGN.md §4 C17"
 RULE = ("histories of add / remove / re-key / create_linked_view (all jobs, job_ids subsets incl. empty and "
-        "singleton, path=None / False / format strings with {key}, {job.id}, {job.sp.key}, {{auto}}, {{auto:sep}}) "
-        "over 8 state point universes (homogeneous, heterogeneous, nested + lists, textually colliding 1/'1'/True/1.0, "
-        "key or value literally 'job', values '' '.' '..', values and keys with the separator, unicode/space/dot "
+        "singleton, spelled with full or unique abbreviated ids, each accepted selection repeated with an unknown id, path=None / False / format strings with {key}, {job.id}, {job.sp.key}, {{auto}}, {{auto:sep}}) "
+        "over 9 state point universes (homogeneous, heterogeneous, nested + lists, textually colliding 1/'1'/True/1.0, "
+        "key or value literally 'job', values '' '.' '..', values and keys with the separator (also after a nested mapping), unicode/space/dot "
         "values); every view op is compared (outcome + full tree incl. link texts) with the Lean model run on the "
         "REAL prior tree, and judged by the direct oracle; distinct = distinct (selected state points, path, prior "
         "tree) triples; non-trivial = a view op over >= 1 selected job or on a non-empty prior view")
